@@ -550,6 +550,20 @@ class C05(Prop):
                 ok = ok and not (isinstance(d, dict)) and d[0] == c["total"] and len(d[1][0] if d[1] else []) == len(c["alerts"])
             elif k == "uid":
                 ok = ok and not isinstance(d, dict) and d[:2] == [c["type"], c["id"]] and d[3:5] == [c["logo"], c["image"]]
+                if ok and "uid" in c:
+                    # the UID text is the canonical base-32 numeral of (UID bytes ++ CRC-16) read little-endian (statement of C05_uid),
+                    # computed here independently of the library and of the model
+                    crc = 0xA3A3
+                    for byte in c["uid"]:
+                        crc ^= byte
+                        for _ in range(8):
+                            crc = (crc >> 1) ^ 0xA001 if crc & 1 else crc >> 1
+                    num = int.from_bytes(bytes(c["uid"]) + crc.to_bytes(2, "little"), "little")
+                    digits = []
+                    while num:
+                        digits.insert(0, num % 32)
+                        num //= 32
+                    ok = d[2] == digits
             elif k == "password":
                 ok = ok and d == ([c["text"]] if c["text"] else [])
             else:
